@@ -14,6 +14,8 @@ pub enum Arm {
     CatchAll,
     /// variant that exists only on this side: Into gives the value, From never produces it
     Ghost(i64),
+    /// guarded binding pattern `n if n % 2 == 0`, into value
+    Guard(i64),
 }
 
 #[derive(Clone, Debug)]
@@ -44,7 +46,7 @@ pub fn gen(ctx: &mut Ctx, max_variants: usize) -> Option<PCase> {
     }
     let mut arms = vec![];
     for _ in 0..n {
-        let a = match ctx.choose(6) {
+        let a = match ctx.choose(7) {
             0 => Arm::Literal(pts[ctx.choose(pts.len())]),
             1 => {
                 if prim == "str" {
@@ -62,7 +64,13 @@ pub fn gen(ctx: &mut Ctx, max_variants: usize) -> Option<PCase> {
             }
             3 => Arm::Wild(pts[ctx.choose(pts.len())]),
             4 => Arm::CatchAll,
-            _ => Arm::Ghost(pts[ctx.choose(pts.len())]),
+            5 => Arm::Ghost(pts[ctx.choose(pts.len())]),
+            _ => {
+                if prim == "str" {
+                    return ctx.reject();
+                }
+                Arm::Guard(pts[ctx.choose(pts.len())])
+            }
         };
         arms.push(a);
     }
@@ -94,7 +102,7 @@ pub fn gen(ctx: &mut Ctx, max_variants: usize) -> Option<PCase> {
     }
     let mut tags = vec![format!("prim={}", prim), format!("n={}", n), format!("kinds={}", ["map_owned", "map", "from_owned"][kinds])];
     for a in &arms {
-        tags.push(format!("arm={}", match a { Arm::Literal(_) => "literal", Arm::Range(..) => "range", Arm::Or(..) => "or", Arm::Wild(_) => "wild", Arm::CatchAll => "catch-all", Arm::Ghost(_) => "ghost" }));
+        tags.push(format!("arm={}", match a { Arm::Literal(_) => "literal", Arm::Range(..) => "range", Arm::Or(..) => "or", Arm::Wild(_) => "wild", Arm::CatchAll => "catch-all", Arm::Ghost(_) => "ghost", Arm::Guard(_) => "guard" }));
     }
     let lits: Vec<i64> = arms.iter().filter_map(|a| if let Arm::Literal(k) = a { Some(*k) } else { None }).collect();
     let mut dl = lits.clone();
@@ -138,6 +146,7 @@ impl PCase {
                 Arm::Or(a, b, _) => *a == v || *b == v,
                 Arm::Wild(_) | Arm::CatchAll => true,
                 Arm::Ghost(_) => false,
+                Arm::Guard(_) => v % 2 == 0,
             };
             if m {
                 return Some(i);
@@ -181,6 +190,9 @@ impl PCase {
                 }
                 Arm::Or(a, b, v) => {
                     let _ = writeln!(o, "    #[pattern({} | {})] {}{},", self.lit(*a), self.lit(*b), if needs_into { format!("#[into({{ {} }})] ", self.lit(*v)) } else { String::new() }, vn);
+                }
+                Arm::Guard(v) => {
+                    let _ = writeln!(o, "    #[pattern(n if n % 2 == 0)] {}{},", if needs_into { format!("#[into({{ {} }})] ", self.lit(*v)) } else { String::new() }, vn);
                 }
                 Arm::Wild(v) => {
                     let _ = writeln!(o, "    #[pattern(_)] {}{},", if needs_into { format!("#[into({{ {} }})] ", self.lit(*v)) } else { String::new() }, vn);
@@ -252,7 +264,7 @@ impl PCase {
             for (i, a) in self.arms.iter().enumerate() {
                 let (sv, sfv, exp) = match a {
                     Arm::Literal(k) => (format!("S::V{}", i), format!("Sf::V{}", i), self.lit(*k)),
-                    Arm::Range(_, _, v) | Arm::Or(_, _, v) | Arm::Wild(v) | Arm::Ghost(v) => (format!("S::V{}", i), format!("Sf::V{}", i), self.lit(*v)),
+                    Arm::Range(_, _, v) | Arm::Or(_, _, v) | Arm::Wild(v) | Arm::Ghost(v) | Arm::Guard(v) => (format!("S::V{}", i), format!("Sf::V{}", i), self.lit(*v)),
                     Arm::CatchAll => {
                         let x = self.dom_lit(if self.prim == "str" { 3 } else { 77 });
                         (format!("S::V{}({})", i, x), format!("Sf::V{}({})", i, x), x)
